@@ -50,6 +50,13 @@ TTargetedTotal ==
        [] Ev.which = "log_prior" -> Total("log_prior", Hdr.user_lpr, PriorInputs(DSet, HasVar, Param))
   /\ Step
 
+\* Model.simulate that raises (the distributions cannot be sampled): nothing changes, auto-update stays as it was
+TFailedSimulate ==
+  /\ IsEvent("failed_simulate")
+  /\ Chk("simulate_raised", Ev.sim_raised)
+  /\ Chk("auto_update_setting_survives_a_failed_simulate", Ev.auto_update_after = auto)
+  /\ SetAuto(auto) /\ Obs /\ Step
+
 \* --- numeric regime: no graph state, every event is self-contained ---------------------
 Sel(x, mode) == CASE mode = "all" -> TRUE
                  [] mode = "lik" -> x.has_var /\ x.observed
@@ -85,5 +92,5 @@ TTotalsNum ==
             /\ Close(Ev.log_prior, Ev.alt_log_prior))
   /\ UNCHANGED <<gvars, svars>> /\ Step
 
-TNext2 == TNext \/ TTotals \/ TTargetedTotal \/ TTotalsNum
+TNext2 == TNext \/ TTotals \/ TTargetedTotal \/ TFailedSimulate \/ TTotalsNum
 =============================================================================
